@@ -333,7 +333,30 @@ class Run:
         return uniq
 
     # ------------------------------------------------- full replay cycle
+    HEAVY_OPS = {"ByteSweep", "RandomSweep", "CodeSweep", "ApiSweep", "MappingBodies", "Tables", "Concurrent", "ConcurrentVerify", "ConcurrentSign",
+                 "Chain", "SignedMutSweep", "TextBig", "Sweep", "EncRange", "DecChunks", "TextEncChunks", "TextDecMutate", "TextGuard", "PartialMethods",
+                 "ZeroMethods", "ObjNew", "ObjCall"}
+
+    def add_zone_copies(self, every=9, cap=250):
+        """Process-level state must not matter: a sample of the sessions is replayed a second time with the process's local time zone
+        set to -8 h / +5:30 / +14 h (op argument "localoffset", applied by the driver around the call)."""
+        offs = (-28800, 19800, 50400)
+        extra = []
+        for i, v in enumerate(self.vectors):
+            if i % every != 4 or len(extra) >= cap:
+                continue
+            if any(o.get("op") in self.HEAVY_OPS or "localoffset" in o for o in v["ops"]):
+                continue
+            c = json.loads(json.dumps(v))
+            for o in c["ops"]:
+                o["localoffset"] = offs[len(extra) % 3]
+            extra.append(c)
+        self.vectors.extend(extra)
+        self.zone_copies = len(extra)
+
     def replay_and_judge(self, tag="main", race=False, env_extra=None, driver_workers=None):
+        if not race and not getattr(self, "zone_copies", None):
+            self.add_zone_copies()
         for i, v in enumerate(self.vectors):
             v["sid"] = i + 1
         tf, dout = self.drive(self.vectors, tag, race=race, env_extra=env_extra, workers=driver_workers)
